@@ -359,6 +359,15 @@ BUILDERS = {
 }
 
 
+# builder -> {rdata parameter of the record constructor: the expression it must receive}
+RDATA_WIRING = {
+    '_dns_service': {'priority': 'self.priority', 'weight': 'self.weight', 'port': 'self.port', 'server': 'self.server or self._name'},
+    '_dns_text': {'text': 'self.text'},
+    '_dns_pointer': {'alias': 'self._name'},
+    '_dns_nsec': {'next_name': 'self._name', 'rdtypes': '<param>'},
+}
+
+
 def _local_def(f: FuncInfo, name: str) -> Optional[ast.AST]:
     defs = [st.value for st in walk_local_ordered(f.node) if isinstance(st, ast.Assign) and any(isinstance(t, ast.Name) and t.id == name for t in st.targets)]
     return defs[0] if len(defs) == 1 else None
@@ -424,6 +433,24 @@ def ttlclass(ctx: Any) -> List[Ob]:
     vals = [prog.try_fold(g.module, a) for a in ctor[0].args[:4]]
     enum_name = prog.const('zeroconf.const', '_SERVICE_TYPE_ENUMERATION_NAME')
     obs.append(ob(R, g, ctor[0], 'the enumeration answer is a shared PTR (class IN, 4500 s) owned by the enumeration name', [v for _, v in vals] == [enum_name, 12, 1, 4500], str([v for _, v in vals])))
+    # rdata wiring: each rdata parameter of the record constructor receives the service's field of that role
+    for bn, want in RDATA_WIRING.items():
+        f = info.methods[bn]
+        me = f.params[0]
+        c = [x for x in walk_local_ordered(f.node) if isinstance(x, ast.Call) and call_name(x) == BUILDERS[bn][0]][0]
+        init = prog.cls('zeroconf._dns.' + BUILDERS[bn][0]).find_method('__init__')
+        if init is None:
+            raise AnalysisError(f'anchor vanished: {BUILDERS[bn][0]}.__init__')
+        ip = init.params[1:]
+        bound = {ip[i]: a for i, a in enumerate(c.args) if i < len(ip)}
+        bound.update({k.arg: k.value for k in c.keywords if k.arg})
+        for par, exp in want.items():
+            from .common import xnorm
+
+            got = xnorm(f, bound[par]) if par in bound else '<not passed>'
+            exp_t = exp.replace('self.', me + '.') if exp != '<param>' else None
+            good = (got == exp_t) if exp_t is not None else (got in f.params)
+            obs.append(ob(R, f, c, f'{bn}: constructor parameter `{par}` receives {exp if exp != "<param>" else "the caller-supplied list"}', good, f'receives `{got}`'))
     # owner names of the instance records
     owners = {'_dns_pointer': ('type', '_name'), '_dns_service': ('_name', None), '_dns_text': ('_name', None)}
     for bn, (own, alias) in owners.items():
@@ -503,9 +530,17 @@ def memo(ctx: Any) -> List[Ob]:
         oc, _ = traces(ctx, b, atoms, eff, loop_bound=1)
         bad = [t for t in oc if 'MEMO-STORE' in t or 'MEMO-RETURN' in t]
         obs.append(ob(R, b, f'{b.name}(override_ttl=0)', f'a goodbye copy (override TTL) is neither stored in nor served from memo `{a}`', not bad and bool(oc), str(sorted(map(str, bad)))[:200]))
+        # every other parameter the built value depends on keys the memo too: a build for a non-default value of it is
+        # neither stored nor served (else a filtered list poisons the memo that the responder reads as the full set)
+        for extra in [p for p in b.params[1:] if p != ov]:
+            for stored in (None, Sym('memoised')):
+                atoms3 = {ov: None, extra: Sym('IPVersion.V4Only'), f'{me}.{a}': stored}
+                oc3, und3 = traces(ctx, b, atoms3, eff, loop_bound=1)
+                bad3 = [t for t in oc3 if 'MEMO-STORE' in t or 'MEMO-RETURN' in t]
+                obs.append(ob(R, b, f'{b.name}({extra}=<a value other than the default>), memo {"set" if stored else "unset"}', f'a build that depends on `{extra}` is neither stored in nor served from memo `{a}`', not bad3 and bool(oc3), str(sorted(map(str, bad3)))[:200]))
         atoms2 = {ov: None, f'{me}.{a}': None}
         if 'version' in b.params:
-            continue
+            atoms2['version'] = Sym('IPVersion.All')
         oc2, _ = traces(ctx, b, atoms2, eff, loop_bound=1)
         obs.append(ob(R, b, f'{b.name}(override_ttl=None)', f'a normal build fills memo `{a}`', all('MEMO-STORE' in t for t in oc2) and bool(oc2)))
     # query handler asks with None override
